@@ -44,7 +44,9 @@ CHECKS = {
             "decoded values, fixed point) + independent cross-parse by the reference model",
             "Each accepted script is serialised with the real tosieve(), re-parsed by the real "
             "parser and by R-SIEVE; trees are compared with string values decoded; the second "
-            "serialisation must equal the first byte for byte.",
+            "serialisation must equal the first byte for byte. A third of the round trips "
+            "re-parse with the Parser object that parsed the source, two thirds read the tree "
+            "through its public getters before printing.",
             "Trusted: R-SIEVE decoding rules. Tagged arguments compared as unordered groups."),
     "C07": ("exploration", "DESIGN.md §2 C07",
             "runtime monitoring: independent pre-order gate walk over every accepted tree "
